@@ -8,15 +8,30 @@ C16 — Merkle proofs accept exactly the committed leaves.  Statement (propertie
 
 All theorems are over every leaf list (any length), every leaf index, every `max_proof_len`
 (`d`; the stored row is layer `min d (layers-1)`, so every row of the tree is covered), every
-candidate value and every candidate proof.  The positive half holds for every combining
-function; the negative half assumes the combining function injective (`Injective2`, i.e. no
-hash collisions — the free term algebra `Dig` is the canonical instance).
+candidate value and every candidate proof, present (`some p`) or absent (`none`, the wire form
+of the empty proof).  The positive half holds for every combining function.  The negative half
+is stated three times, from the most abstract to the byte level:
+  * `verifies_iff_committed_on` — for a combining function that is collision free relative to a
+    class `D` of well-formed digests (`InjectiveOn2`); proof elements are *unrestricted*
+    (wrong-length byte strings included), only the candidate value must be well formed;
+  * `verifies_iff_committed` — `D = everything` (the free term algebra `Dig` is an instance);
+  * `forged_acceptance_yields_collision` — nodes are byte strings, `comb a b = H (a ++ b)` exactly
+    as `concat_and_hash` (no framing), `H` any function with outputs of length `L`: every accepted
+    verification is either the committed leaf with (an extension of) the generated proof, or
+    there are two different byte strings with the same `H`.  No unsatisfiable hypothesis.
+The absent proof needs no assumption at all: `none_proof_iff`.
 
 Reading of "no other index verifies" (DESIGN §5): verification at index `j` with value `v`
 succeeds iff `v` is the committed leaf `j` — with duplicate leaves the literal reading is false
 for every Merkle tree.  "Altered proof" is about the elements the playback consumes
-(`check_merkle_tree` ignores trailing elements; `accepted_proofs_extend_honest` says exactly
-which proofs are accepted).
+(`check_merkle_tree` ignores trailing elements; the iff says exactly which proofs are accepted).
+
+Defect found through this property and repaired (fixes/C16-none-proof-needs-no-sibling.patch):
+before the repair the `None` arm halved the index per layer without testing for a sibling, so an
+absent proof against a stored row above the leaves accepted the *inner node* `row[loc / 2^k]`
+as the value of every leaf below it.  `pre_fix_none_arm_unsound` proves this of the model of the
+old function (`checkMerkleTreePre`); the harness replays the witness on the implementation
+(function level and through `BmffHash::verify_stream_hash`).
 -/
 namespace C2pa.C16
 
@@ -79,13 +94,66 @@ theorem proof_verifies_row [DecidableEq α] (comb : α → α → α) (leaves : 
   subst this
   exact ⟨p, hp, hc⟩
 
-/-- **Exactly the committed leaf verifies** (injective `comb`): against the stored row of
-depth `d`, verification at index `loc` of value `v` with proof `p` succeeds iff `loc` is in
-range, `v` is the committed leaf `loc`, and `p` starts with the generated proof for `loc`. -/
-theorem index_verifies_iff_committed [DecidableEq α] (comb : α → α → α) (hinj : Injective2 comb)
-    (leaves : List α) (d loc : Nat) (v : α) (p : List α) :
-    checkMerkleTree comb leaves.length (rowAt comb leaves d) v loc (some p) = true
-      ↔ leaves[loc]? = some v ∧ proofGo (genTree comb leaves) loc d <+: p := by
+/-! ### the absent proof is the empty proof -/
+
+/-- Refinement between the two arms of `check_merkle_tree`: an absent proof is verified exactly
+like the empty proof — for every stored row (also one that is not a row of the tree), count,
+value, index and combining function. -/
+theorem none_proof_eq_empty_proof [DecidableEq α] (comb : α → α → α) (count : Nat)
+    (hashes : List α) (v : α) (loc : Nat) :
+    checkMerkleTree comb count hashes v loc none
+      = checkMerkleTree comb count hashes v loc (some []) := by
+  simp only [checkMerkleTree, playProof_nil]
+  split
+  · rfl
+  · cases playEmpty (layout count) hashes.length loc <;> simp
+
+theorem check_option_eq [DecidableEq α] (comb : α → α → α) (count : Nat)
+    (hashes : List α) (v : α) (loc : Nat) (proof : Option (List α)) :
+    checkMerkleTree comb count hashes v loc proof
+      = checkMerkleTree comb count hashes v loc (some (proof.getD [])) := by
+  cases proof with
+  | none => exact none_proof_eq_empty_proof comb count hashes v loc
+  | some p => rfl
+
+/-- **Wire form of the generated proof verifies**: producers store `hashes = None` when the
+generated proof is empty (bmff_hash.rs `if !proof.is_empty() { mm.hashes = Some(..) }`); what
+reaches the verifier verifies, for every combining function. -/
+theorem wire_proof_verifies [DecidableEq α] (comb : α → α → α) (leaves : List α) (i d : Nat)
+    (hi : i < leaves.length) :
+    checkMerkleTree comb leaves.length (rowAt comb leaves d) leaves[i] i
+      (if (proofGo (genTree comb leaves) i d).isEmpty then none
+        else some (proofGo (genTree comb leaves) i d)) = true := by
+  have hv : leaves[i]? = some leaves[i] := by simp [hi]
+  obtain ⟨j, h, hp, hr⟩ := play_complete comb d leaves i leaves[i] [] hv
+  simp only [List.append_nil] at hp
+  have hsome : checkMerkleTree comb leaves.length (rowAt comb leaves d) leaves[i] i
+      (some (proofGo (genTree comb leaves) i d)) = true := by
+    simp only [checkMerkleTree, ge_iff_le, Nat.not_le.mpr hi, if_false, hp]
+    exact (hashCheck_iff _ _ _).mpr hr
+  split
+  · rename_i he
+    rw [none_proof_eq_empty_proof]
+    rw [List.isEmpty_iff.mp he] at hsome
+    exact hsome
+  · exact hsome
+
+/-! ### exactly the committed leaf verifies -/
+
+/-- **Exactly the committed leaf verifies.**  `D` is the class of well-formed digests (think
+"has the digest length"); `comb` produces well-formed digests and is collision free relative to
+`D` (`InjectiveOn2`).  Leaves and the candidate value are well formed; the proof — present or
+absent, with elements of *any* shape — is unrestricted.  Against the stored row of depth `d`,
+verification at index `loc` of value `v` succeeds iff `v` is the committed leaf `loc` and the
+proof starts with the generated proof for `loc`. -/
+theorem verifies_iff_committed_on [DecidableEq α] (comb : α → α → α) (D : α → Prop)
+    (hD : ∀ a b, D (comb a b)) (hinj : InjectiveOn2 D comb)
+    (leaves : List α) (hl : ∀ x ∈ leaves, D x) (d loc : Nat) (v : α) (hv : D v)
+    (proof : Option (List α)) :
+    checkMerkleTree comb leaves.length (rowAt comb leaves d) v loc proof = true
+      ↔ leaves[loc]? = some v ∧ proofGo (genTree comb leaves) loc d <+: proof.getD [] := by
+  rw [check_option_eq]
+  generalize proof.getD [] = p
   constructor
   · intro hc
     simp only [checkMerkleTree, ge_iff_le] at hc
@@ -93,7 +161,8 @@ theorem index_verifies_iff_committed [DecidableEq α] (comb : α → α → α) 
     · simp only [Nat.not_le.mpr hlt, if_false] at hc
       split at hc
       · rename_i j h hplay
-        exact play_sound comb hinj d leaves loc v p j h hlt hplay ((hashCheck_iff _ _ _).mp hc)
+        exact play_sound_on comb D hD hinj d leaves loc v p j h hlt hl hv hplay
+          ((hashCheck_iff _ _ _).mp hc)
       · simp at hc
     · simp [Nat.le_of_not_lt hlt] at hc
   · rintro ⟨hv, hpre⟩
@@ -104,13 +173,72 @@ theorem index_verifies_iff_committed [DecidableEq α] (comb : α → α → α) 
     simp only [checkMerkleTree, ge_iff_le, Nat.not_le.mpr hlt, if_false, hp]
     exact (hashCheck_iff _ _ _).mpr hr
 
+/-- The same for a `comb` that is injective on all pairs (no class needed). -/
+theorem verifies_iff_committed [DecidableEq α] (comb : α → α → α) (hinj : Injective2 comb)
+    (leaves : List α) (d loc : Nat) (v : α) (proof : Option (List α)) :
+    checkMerkleTree comb leaves.length (rowAt comb leaves d) v loc proof = true
+      ↔ leaves[loc]? = some v ∧ proofGo (genTree comb leaves) loc d <+: proof.getD [] :=
+  verifies_iff_committed_on comb (fun _ => True) (fun _ _ => trivial)
+    (fun a b c d _ _ _ h => hinj a b c d h) leaves (fun _ _ => trivial) d loc v trivial proof
+
+/-- `verifies_iff_committed` for a present proof (the form used by the corollaries below). -/
+theorem index_verifies_iff_committed [DecidableEq α] (comb : α → α → α) (hinj : Injective2 comb)
+    (leaves : List α) (d loc : Nat) (v : α) (p : List α) :
+    checkMerkleTree comb leaves.length (rowAt comb leaves d) v loc (some p) = true
+      ↔ leaves[loc]? = some v ∧ proofGo (genTree comb leaves) loc d <+: p :=
+  verifies_iff_committed comb hinj leaves d loc v (some p)
+
+/-- **The absent proof, without any assumption on the combining function**: `None` against the
+stored row of depth `d` is accepted iff the value is the committed leaf and that leaf needs no
+sibling up to the stored row (its generated proof is empty: the stored row is the leaf row, or
+the node is carried up unpaired).  In particular an inner node is never accepted as a leaf,
+collisions or not. -/
+theorem none_proof_iff [DecidableEq α] (comb : α → α → α) (leaves : List α) (d loc : Nat)
+    (v : α) :
+    checkMerkleTree comb leaves.length (rowAt comb leaves d) v loc none = true
+      ↔ leaves[loc]? = some v ∧ proofGo (genTree comb leaves) loc d = [] := by
+  rw [none_proof_eq_empty_proof]
+  constructor
+  · intro hc
+    simp only [checkMerkleTree, ge_iff_le] at hc
+    by_cases hlt : loc < leaves.length
+    · simp only [Nat.not_le.mpr hlt, if_false] at hc
+      split at hc
+      · rename_i j h hplay
+        exact play_sound_nil comb d leaves loc v j h hlt hplay ((hashCheck_iff _ _ _).mp hc)
+      · simp at hc
+    · simp [Nat.le_of_not_lt hlt] at hc
+  · rintro ⟨hv, he⟩
+    have hlt : loc < leaves.length := by
+      rcases List.getElem?_eq_some_iff.mp hv with ⟨h, _⟩; exact h
+    obtain ⟨j, h, hp, hr⟩ := play_complete comb d leaves loc v [] hv
+    rw [he] at hp
+    simp only [List.append_nil] at hp
+    simp only [checkMerkleTree, ge_iff_le, Nat.not_le.mpr hlt, if_false, hp]
+    exact (hashCheck_iff _ _ _).mpr hr
+
+/-- Empty-proof playback against the leaf row (the path `validate_merkle_maps_mdat_boxes`
+uses for mdat leaves): accepted iff the value is the committed leaf. No assumption on `comb`. -/
+theorem none_proof_leaf_row_iff [DecidableEq α] (comb : α → α → α) (leaves : List α) (loc : Nat)
+    (v : α) :
+    checkMerkleTree comb leaves.length leaves v loc none = true ↔ leaves[loc]? = some v := by
+  have h := none_proof_iff comb leaves 0 loc v
+  have e : proofGo (genTree comb leaves) loc 0 = [] := by
+    by_cases hb : 1 < leaves.length
+    · rw [genTree_big comb leaves hb]; simp [proofGo]
+    · rw [genTree_small comb leaves hb]; simp [proofGo]
+  simpa [rowAt, e] using h
+
+/-! ### corollaries (projections of the iff; kept as named helpers) -/
+
 /-- A value that is not the committed leaf at `loc` is rejected, whatever the proof. -/
 theorem wrong_leaf_rejected [DecidableEq α] (comb : α → α → α) (hinj : Injective2 comb)
-    (leaves : List α) (d loc : Nat) (v : α) (p : List α) (hne : leaves[loc]? ≠ some v) :
-    checkMerkleTree comb leaves.length (rowAt comb leaves d) v loc (some p) = false := by
-  cases hc : checkMerkleTree comb leaves.length (rowAt comb leaves d) v loc (some p) with
+    (leaves : List α) (d loc : Nat) (v : α) (proof : Option (List α))
+    (hne : leaves[loc]? ≠ some v) :
+    checkMerkleTree comb leaves.length (rowAt comb leaves d) v loc proof = false := by
+  cases hc : checkMerkleTree comb leaves.length (rowAt comb leaves d) v loc proof with
   | false => rfl
-  | true => exact absurd ((index_verifies_iff_committed comb hinj leaves d loc v p).mp hc).1 hne
+  | true => exact absurd ((verifies_iff_committed comb hinj leaves d loc v proof).mp hc).1 hne
 
 /-- A proof that differs from the generated proof in an element the playback consumes
 (position `k` below the generated proof's length), or is shorter than it, is rejected. -/
@@ -135,28 +263,88 @@ theorem accepted_proofs_extend_honest [DecidableEq α] (comb : α → α → α)
   exact ⟨extra, rfl⟩
 
 /-- An index at or beyond `count` is rejected for every stored row, value and proof
-(including the empty-proof playback). -/
+(including the absent proof). -/
 theorem out_of_range_rejected [DecidableEq α] (comb : α → α → α) (count : Nat) (hashes : List α)
     (v : α) (loc : Nat) (proof : Option (List α)) (h : count ≤ loc) :
     checkMerkleTree comb count hashes v loc proof = false := by
   simp [checkMerkleTree, h]
 
-theorem playEmpty_head (n idx : Nat) : playEmpty (layout n) n idx = idx := by
-  by_cases h : 1 < n
-  · rw [layout_big _ h]; simp [playEmpty]
-  · rw [layout_small _ h]; simp [playEmpty]
+/-! ### byte level: `concat_and_hash` without framing -/
 
-/-- Empty-proof playback against the leaf row (the path `validate_merkle_maps_mdat_boxes`
-uses for mdat leaves): accepted iff the value is the committed leaf. No assumption on `comb`. -/
-theorem none_proof_leaf_row_iff [DecidableEq α] (comb : α → α → α) (leaves : List α) (loc : Nat)
-    (v : α) :
-    checkMerkleTree comb leaves.length leaves v loc none = true ↔ leaves[loc]? = some v := by
-  simp only [checkMerkleTree, ge_iff_le, playEmpty_head]
-  by_cases hlt : loc < leaves.length
-  · simp only [Nat.not_le.mpr hlt, if_false]
-    exact hashCheck_iff _ _ _
-  · have : leaves[loc]? = none := List.getElem?_eq_none (Nat.le_of_not_lt hlt)
-    simp [Nat.le_of_not_lt hlt]
+/-- `concat_and_hash(alg, left, Some(right))` = `hash_by_alg(alg, left ‖ right)`: plain
+concatenation, no length prefix, no leaf/node domain separation. -/
+def concatHash (H : List UInt8 → List UInt8) (a b : List UInt8) : List UInt8 := H (a ++ b)
+
+/-- A collision-free `H` makes the unframed `concatHash` collision free relative to the byte
+strings of one fixed length: the split point of `a ‖ b` is known as soon as one side has that
+length. -/
+theorem concatHash_injectiveOn (H : List UInt8 → List UInt8) (L : Nat)
+    (hH : ∀ x y, H x = H y → x = y) :
+    InjectiveOn2 (fun x => x.length = L) (concatHash H) := by
+  intro a b c d hc hd hab h
+  have e : a ++ b = c ++ d := hH _ _ h
+  rcases hab with ha | hb
+  · exact List.append_inj e (by rw [ha, hc])
+  · exact List.append_inj' e (by rw [hb, hd])
+
+/-- **Byte-level statement, no idealised hypothesis.**  Nodes are byte strings, the combining
+function is the code's unframed `H (a ‖ b)`, `H` is *any* function with `L`-byte outputs (e.g.
+SHA-256, `L = 32`), leaves and the candidate value are `L`-byte digests (at every call site the
+value is `hash_stream_by_alg(alg, …)`), the proof is any option of any list of byte strings of
+any lengths.  Then an accepted verification is the committed leaf with an extension of the
+generated proof — or two different byte strings with the same `H` exist. -/
+theorem forged_acceptance_yields_collision (H : List UInt8 → List UInt8) (L : Nat)
+    (hL : ∀ x, (H x).length = L) (leaves : List (List UInt8)) (hl : ∀ x ∈ leaves, x.length = L)
+    (d loc : Nat) (v : List UInt8) (hv : v.length = L) (proof : Option (List (List UInt8)))
+    (hacc : checkMerkleTree (concatHash H) leaves.length (rowAt (concatHash H) leaves d) v loc
+      proof = true) :
+    (leaves[loc]? = some v ∧ proofGo (genTree (concatHash H) leaves) loc d <+: proof.getD [])
+      ∨ ∃ x y, x ≠ y ∧ H x = H y := by
+  by_cases hc : ∃ x y, x ≠ y ∧ H x = H y
+  · exact Or.inr hc
+  · have hH : ∀ x y, H x = H y → x = y := fun x y h =>
+      Classical.byContradiction fun hne => hc ⟨x, y, hne, h⟩
+    exact Or.inl ((verifies_iff_committed_on (concatHash H) (fun x => x.length = L)
+      (fun a b => hL (a ++ b)) (concatHash_injectiveOn H L hH) leaves hl d loc v hv proof).mp hacc)
+
+-- non-vacuity of the hypotheses of `forged_acceptance_yields_collision`: a 2-byte "hash"
+example : ∃ H : List UInt8 → List UInt8, ∀ x, (H x).length = 2 :=
+  ⟨fun x => [x.headD 0, (x.drop 1).headD 0], fun _ => rfl⟩
+
+/-- The hypothesis "the candidate value is well formed" cannot be dropped for an unframed
+`comb`: with plain concatenation as (perfectly collision-free) `H` and digests of length 2, the
+1-element value `[4]` with the over-long proof element `[1,2,3]` verifies at index 1 of the tree
+over `[1,2],[3,4]` although the committed leaf is `[3,4]`.  (Function-level only: no call site
+passes a value that is not an `alg` digest.) -/
+theorem value_length_hypothesis_needed :
+    checkMerkleTree (concatHash id) 2 (rowAt (concatHash id) [[1, 2], [3, 4]] 1) [4] 1
+      (some [[1, 2, 3]]) = true := by decide +kernel
+
+/-! ### the defect of the unrepaired function -/
+
+/-- The property clause for the `None` arm, about the function **before** the repair. -/
+def PreFixNoneArmSound : Prop :=
+  ∀ (leaves : List Dig) (d loc : Nat) (v : Dig),
+    checkMerkleTreePre Dig.comb leaves.length (rowAt Dig.comb leaves d) v loc none = true →
+      leaves[loc]? = some v
+
+/-- Before the repair the clause was false: with two leaves and the root row stored, the root
+`comb 0 1` was accepted as the value of leaf 0 (and of leaf 1) by an absent proof. -/
+theorem pre_fix_none_arm_unsound : ¬ PreFixNoneArmSound := by
+  intro h
+  have := h [.leaf 0, .leaf 1] 1 0 (.comb (.leaf 0) (.leaf 1)) (by decide +kernel)
+  exact absurd this (by decide)
+
+/-- The repaired function rejects that witness. -/
+theorem fixed_rejects_pre_fix_witness :
+    checkMerkleTree Dig.comb 2 (rowAt Dig.comb [.leaf 0, .leaf 1] 1) (.comb (.leaf 0) (.leaf 1))
+      0 none = false := by decide +kernel
+
+/-- The two functions differ only in the `None` arm. -/
+theorem pre_fix_same_on_present_proofs [DecidableEq α] (comb : α → α → α) (count : Nat)
+    (hashes : List α) (v : α) (loc : Nat) (p : List α) :
+    checkMerkleTreePre comb count hashes v loc (some p)
+      = checkMerkleTree comb count hashes v loc (some p) := rfl
 
 /-! ### the free algebra instance and non-vacuity -/
 
@@ -178,6 +366,17 @@ example :
     checkMerkleTree (fun _ _ => (0 : Nat)) 2 (rowAt (fun _ _ => 0) [1, 2] 1) 7 0 (some [9])
       = true := by decide +kernel
 
+-- `InjectiveOn2` is satisfiable where `Injective2` is not: plain concatenation of byte
+-- strings, relative to the strings of length 2 …
+example : InjectiveOn2 (fun x : List UInt8 => x.length = 2) (concatHash id) :=
+  concatHash_injectiveOn id 2 (fun _ _ h => h)
+
+-- … is not injective on all pairs.
+example : ¬ Injective2 (concatHash id) := by
+  intro h
+  have := h [1] [2, 3] [1, 2] [3] (by decide)
+  exact absurd this.1 (by decide)
+
 -- Non-vacuity: a 5-leaf tree (odd-node promotion on two levels), row 2, leaf 4 (promoted twice).
 example :
     (Tree.fromLeaves Dig.comb ((List.range 5).map Dig.leaf)).layers.map List.length = [5, 3, 2, 1] := by
@@ -186,6 +385,21 @@ example :
 example :
     (Tree.fromLeaves Dig.comb ((List.range 5).map Dig.leaf)).getProof 4 9
       = some [.comb (.comb (.leaf 0) (.leaf 1)) (.comb (.leaf 2) (.leaf 3))] := by
+  decide +kernel
+
+-- leaf 4 of 5 against row 2 has the empty proof; its wire form `none` verifies, and `none`
+-- for leaf 3 (which has siblings) or for the inner node above leaf 0 does not
+example :
+    checkMerkleTree Dig.comb 5 (rowAt Dig.comb ((List.range 5).map Dig.leaf) 2) (.leaf 4) 4 none
+      = true := by decide +kernel
+
+example :
+    checkMerkleTree Dig.comb 5 (rowAt Dig.comb ((List.range 5).map Dig.leaf) 2) (.leaf 3) 3 none
+      = false := by decide +kernel
+
+example :
+    checkMerkleTree Dig.comb 5 (rowAt Dig.comb ((List.range 5).map Dig.leaf) 2)
+      (.comb (.comb (.leaf 0) (.leaf 1)) (.comb (.leaf 2) (.leaf 3))) 0 none = false := by
   decide +kernel
 
 example :
